@@ -151,6 +151,26 @@ theorem mesh_le_one (msi : Int) (h : msi ≤ 0) : (2 : Rat) ^ msi ≤ 1 :=
 theorem search_mesh_le_mesh (ssi msi : Int) (h : ssi ≤ msi) : (2 : Rat) ^ ssi ≤ (2 : Rat) ^ msi :=
   zpow_le_zpow_right₀ (by norm_num) h
 
+/-- EVERY REACHABLE STATE OF A RUN WITH THE SHIPPED DEFAULTS (for every dimension in the generated table, every
+    oracle stream, every number of iterations): the mesh size never exceeds 1 and the search mesh is never
+    coarser than the poll mesh.  The option values enter only through `HypC13`, re-proved from the regenerated
+    defaults on every run. -/
+theorem default_run_mesh_bounded (d : Generated.Defaults) (hd : d ∈ Generated.defaults) (o : Opts)
+    (hcap : o.cap = d.max_poll_grid_number) (hsgm : o.sgm = d.search_grid_multiplier)
+    (hsgn : o.sgn = d.search_grid_number) (fc0 nRec0 n : Nat) (oracle : Nat → Out) :
+    (2 : Rat) ^ (run o oracle n (init o fc0 nRec0 d.init_mesh_size_integer)).m.msi ≤ 1 ∧
+    (2 : Rat) ^ (run o oracle n (init o fc0 nRec0 d.init_mesh_size_integer)).m.ssi
+      ≤ (2 : Rat) ^ (run o oracle n (init o fc0 nRec0 d.init_mesh_size_integer)).m.msi := by
+  obtain ⟨_, h2, h3, h4, h5, _, _⟩ := defaults_satisfy_HypC13 d hd
+  have hs : o.sgm = 2 := by rw [hsgm, h4]
+  have hc : o.cap ≤ o.sgn := by rw [hcap, hsgn]; exact h5
+  have h0 : d.init_mesh_size_integer ≤ o.cap := by rw [hcap, h2, h3]
+  have hinv := msi_le_cap_and_ssi_le_msi o hs hc n oracle _ (init_minv o fc0 nRec0 _ h0 hs hc)
+  obtain ⟨ha, hb⟩ := hinv
+  have hcap0 : o.cap = 0 := by rw [hcap, h2]
+  exact ⟨mesh_le_one _ (by omega), search_mesh_le_mesh _ _ hb⟩
+
+
 /-- A run reported as stopped by the mesh tolerance has mesh size below `tol_mesh`. -/
 theorem tolmesh_msg_sound (o : Opts) (s : St) (out : Out) (h : (step o s out).c.msg = .tolMesh) :
     (2 : Rat) ^ (step o s out).m.msi < (2 : Rat) ^ o.tolExp := by
